@@ -23,7 +23,7 @@ vars == <<desc, term, done>>
 Cls == <<"Dense", "User", "Diag", "ConstDiag", "Identity", "Zero", "Toeplitz", "Tri", "Chol", "Root", "LowRankRoot",
          "Kron", "KronTri", "KronDiag", "KronAddedDiag", "SumKron", "AddedDiag", "LRRAddedDiag", "Sum", "PsdSum",
          "Matmul", "Mul", "ConstMul", "BlockDiag", "BlockInter", "SumBatch", "BatchRepeat", "Cat", "Interp", "Masked",
-         "Perm", "TransPerm", "Kernel", "CholU", "KernelM">>
+         "Perm", "TransPerm", "Kernel", "CholU", "KernelM", "InterpLeft">>
 Batches == << <<>>, <<2>> >>
 Dts == <<"f32", "f64">>
 Actions == <<"clone", "detach", "to_dtype", "type", "double", "float", "cpu", "rebuild", "requires_grad_", "evaluate_kernel", "outputs">>
@@ -34,6 +34,7 @@ ModeOf(c) == IF c \in G_PsdOnly THEN 1 ELSE 0
 RECURSIVE LeafKinds(_)
 LeafKinds(t) ==
   LET own == CASE t.cls = "Interp" -> <<"i", "f", "i", "f">>
+               [] t.cls = "InterpLeft" -> <<"i", "f">>
                [] t.cls = "Masked" -> <<"b", "b">>
                [] t.cls = "Perm" -> <<"i">>
                [] OTHER -> [i \in 1..Len(t.ts) |-> "f"]
